@@ -270,6 +270,14 @@ func propC14(w *World, r *Report) {
 		}
 	}
 	r.Check(len(markerWrites) == 1, "M1", "leptond writes exactly one constant marker to the socket", "-", fmt.Sprint(len(markerWrites)))
+	// the YAML camera description is terminated by a blank line: a constant "\n" written right after it
+	okTerm := false
+	for i, ws := range writes {
+		if ws.isC && ws.str == "\n" && i > 0 && writes[i-1].fn == ws.fn && strings.Contains(writes[i-1].term, "Marshal(") {
+			okTerm = writes[i-1].call.Block().Dominates(ws.call.Block()) || writes[i-1].call.Block() == ws.call.Block()
+		}
+	}
+	r.Check(okTerm, "M6", "leptond terminates the YAML camera description with a blank line", "-", fmt.Sprintf("%d socket writes", len(writes)))
 	for _, mw := range markerWrites {
 		r.Check(mw.str == ci.marker, "M1", "marker written by leptond == marker expected by the recorder", w.InstrPos(mw.call), fmt.Sprintf("%q vs %q", mw.str, ci.marker))
 	}
